@@ -276,15 +276,20 @@ class ADP_EAMTabulation(SetFL_EAMTabulation):
     """Write the tabulation to the file object `fp`.
 
     :param fp: File object into which data should be written."""
+    # Assemble setfl, dipole and quadrupole parts before writing anything, so that a
+    # failure in a later part cannot leave an incomplete file behind.
+    from io import StringIO
+    outputbuilder = StringIO()
     writeSetFL(
       self.nrho, self.drho, 
       self.nr, self.dr,
       self.eam_potentials,
       self.potentials,
-      out = fp)
+      out = outputbuilder)
 
-    self._write_dipole(fp)
-    self._write_quadrupole(fp)
+    self._write_dipole(outputbuilder)
+    self._write_quadrupole(outputbuilder)
+    fp.write(outputbuilder.getvalue())
 
 
   def _write_dipole(self, fp):
